@@ -535,7 +535,10 @@ class VM:
             elif isinstance(a_num, int) and isinstance(b_num, int):
                 # Truncated remainder: the result takes the sign of the dividend
                 result = abs(a_num) % abs(b_num)
-                self.stack.append(-result if a_num < 0 else result)
+                if a_num < 0:
+                    # -0 when the remainder of a negative dividend is zero
+                    result = -result if result else -0.0
+                self.stack.append(result)
             else:
                 self.stack.append(math.fmod(a_num, b_num))
 
